@@ -16,8 +16,15 @@ open Note
 #print axioms C08_anc_ever
 #print axioms C08_sound
 #print axioms C08_notify_post
+#print axioms C08_creation_path
+#print axioms C08_creation_ghosts
+#print axioms C08_expiry_min
+#print axioms C08_expiry_min_ret
+#print axioms C08_expiry_min_full_holds
 #print axioms C08_expiry_min_partial
-#print axioms C08_expiry_min_witness
+#print axioms C08_expiry_min_old_code_witness
+#print axioms Dl.minList_mem
+#print axioms Dl.minList_le
 #print axioms C08_complete_witness
 #print axioms C08_complete_partial
 #print axioms C08_stack_notified
